@@ -36,6 +36,7 @@ type nfCall struct {
 	In   ssa.CallInstruction
 	Name string
 	Args []ssa.Value
+	Recv ssa.Value // the interface value of an invoke (x.M(a) on an interface x); nil otherwise
 }
 
 // nfCellOf resolves the address of a variable (its Alloc, or the FreeVar a
@@ -159,6 +160,7 @@ func nfCallOf(in ssa.CallInstruction) nfCall {
 	cc := in.Common()
 	nc := nfCall{In: in, Name: eng.CalleeName(cc), Args: cc.Args}
 	if cc.IsInvoke() {
+		nc.Recv = cc.Value
 		return nc
 	}
 	if _, direct := cc.Value.(*ssa.Function); direct {
@@ -241,11 +243,25 @@ func nfArgFor(call ssa.CallInstruction, p *ssa.Parameter) ssa.Value {
 	return nil
 }
 
+// nfOriginF is an origin together with the call chain of the function it lives in.
+type nfOriginF struct {
+	eng.Origin
+	Fr *nfFrame
+}
+
 // nfOrigins is eng.Origins continued across the boundaries the refactorings of
 // ROBUST.md introduce: a captured variable is followed to the values stored
 // into it, a parameter (when the call chain is known) to the argument passed.
 func nfOrigins(v ssa.Value, fr *nfFrame) []eng.Origin {
 	var out []eng.Origin
+	for _, o := range nfOriginsF(v, fr) {
+		out = append(out, o.Origin)
+	}
+	return out
+}
+
+func nfOriginsF(v ssa.Value, fr *nfFrame) []nfOriginF {
+	var out []nfOriginF
 	type key struct {
 		v  ssa.Value
 		fr *nfFrame
@@ -284,7 +300,7 @@ func nfOrigins(v ssa.Value, fr *nfFrame) []eng.Origin {
 					}
 				}
 			}
-			out = append(out, o)
+			out = append(out, nfOriginF{o, fr})
 		}
 	}
 	walk(v, fr, 0)
@@ -365,6 +381,10 @@ type nfEff struct {
 type nfSite struct {
 	At   ssa.Instruction
 	Effs []nfEff
+	// Fwd: the error result of the call At is the verdict of the effect — At is
+	// the effect itself, or a closure / helper that returns nil only across the
+	// success of the effect (or returns the effect's own error).
+	Fwd bool
 }
 
 func nfIsNormalReturn(in ssa.Instruction) bool {
@@ -397,8 +417,9 @@ func nfBody(in ssa.CallInstruction, f *ssa.Function) *ssa.Function {
 
 // nfMust: the sites of f at which the effect `is` has certainly happened: calls
 // that are the effect, and calls of a closure of the enclosing function / of a
-// function of the same package every normal return of which lies behind such a
-// site (followed `depth` levels). A deferred or spawned call has not happened
+// function of the same package every successful return of which (every normal
+// return, when it has no error result) lies behind such a site (followed
+// `depth` levels). A deferred or spawned call has not happened
 // when the instruction completes: only direct effects are listed for those.
 func nfMust(f *ssa.Function, fr *nfFrame, is func(nc nfCall, fr *nfFrame) bool, depth int) []nfSite {
 	return nfMustBusy(f, fr, is, depth, map[*ssa.Function]bool{})
@@ -411,7 +432,7 @@ func nfMustBusy(f *ssa.Function, fr *nfFrame, is func(nc nfCall, fr *nfFrame) bo
 	for _, ci := range nfAllCalls(f) {
 		nc := nfCallOf(ci)
 		if is(nc, fr) {
-			out = append(out, nfSite{At: ci, Effs: []nfEff{{Fn: f, Call: nc, Fr: fr}}})
+			out = append(out, nfSite{At: ci, Effs: []nfEff{{Fn: f, Call: nc, Fr: fr}}, Fwd: true})
 			continue
 		}
 		if _, plain := ci.(*ssa.Call); !plain || depth == 0 {
@@ -425,10 +446,20 @@ func nfMustBusy(f *ssa.Function, fr *nfFrame, is func(nc nfCall, fr *nfFrame) bo
 		if len(inner) == 0 {
 			continue
 		}
-		if eng.Reach(eng.Query{Fn: g, Barriers: nfAts(inner), Target: nfIsNormalReturn}) != nil {
+		// g performs the effect whenever it reports success: every return that may carry a nil error
+		// (every normal return when g has no error result) lies behind an inner site
+		target := nfIsNormalReturn
+		if idx := nfErrIdx(g); idx >= 0 {
+			succ := eng.SuccessReturns(g, idx)
+			if len(succ) == 0 {
+				continue
+			}
+			target = eng.IsTarget(succ)
+		}
+		if eng.Reach(eng.Query{Fn: g, Barriers: nfAts(inner), Target: target}) != nil {
 			continue
 		}
-		s := nfSite{At: ci}
+		s := nfSite{At: ci, Fwd: nfForwards(g, inner)}
 		for _, i := range inner {
 			s.Effs = append(s.Effs, i.Effs...)
 		}
@@ -532,7 +563,15 @@ func nfSeparates(at func(int64) bool, k, special int64) bool {
 // `NumUses == tokenRevocationPending`, ... in either operand order, negated or
 // not, held in a local or tested in place.
 func c04MarkerExcluded(c *eng.Ctx, f *ssa.Function) eng.Guard {
-	g := eng.Guard{Desc: `[\.NumUses < 0$]=false`}
+	g := c04MarkerEdges(c, f, false, nil)
+	g.Desc = `[\.NumUses < 0$]=false`
+	return g
+}
+
+// c04MarkerEdges: the edges on which such a test says that NumUses is the
+// marker (isMarker) / is not the marker; baseOK restricts the entry tested.
+func c04MarkerEdges(c *eng.Ctx, f *ssa.Function, isMarker bool, baseOK func(base ssa.Value) bool) eng.Guard {
+	g := eng.Guard{Desc: "NumUses is / is not tokenRevocationPending"}
 	fv := c.P.Field("logical.TokenEntry.NumUses")
 	mk, ok := c.P.ConstValue("vault.tokenRevocationPending")
 	if fv == nil || !ok {
@@ -552,19 +591,8 @@ func c04MarkerExcluded(c *eng.Ctx, f *ssa.Function) eng.Guard {
 		marker = -marker
 	}
 	isNumUses := func(v ssa.Value) bool {
-		switch x := v.(type) {
-		case *ssa.UnOp:
-			if x.Op == token.MUL {
-				if fa, ok := x.X.(*ssa.FieldAddr); ok {
-					g := eng.FieldVar(fa)
-					return g != nil && (g == fv || g.Origin() == fv)
-				}
-			}
-		case *ssa.Field:
-			g := eng.FieldVar(x)
-			return g != nil && (g == fv || g.Origin() == fv)
-		}
-		return false
+		base, ok := nfFieldRead(v, fv)
+		return ok && (baseOK == nil || baseOK(base))
 	}
 	for _, in := range eng.Instrs(f, func(in ssa.Instruction) bool { _, ok := in.(*ssa.BinOp); return ok }) {
 		b := in.(*ssa.BinOp)
@@ -572,7 +600,358 @@ func c04MarkerExcluded(c *eng.Ctx, f *ssa.Function) eng.Guard {
 		if !ok || !nfSeparates(at, k, marker) {
 			continue
 		}
-		g.Edges = append(g.Edges, eng.BoolEdges(b, !at(marker))...)
+		g.Edges = append(g.Edges, eng.BoolEdges(b, at(marker) == isMarker)...)
 	}
 	return g
+}
+
+// nfFieldRead: v is a read of field fv; the struct (address) it is read from.
+func nfFieldRead(v ssa.Value, fv *types.Var) (ssa.Value, bool) {
+	same := func(g *types.Var) bool { return g != nil && fv != nil && (g == fv || g.Origin() == fv) }
+	switch x := v.(type) {
+	case *ssa.UnOp:
+		if x.Op == token.MUL {
+			if fa, ok := x.X.(*ssa.FieldAddr); ok && same(eng.FieldVar(fa)) {
+				return fa.X, true
+			}
+		}
+	case *ssa.Field:
+		if same(eng.FieldVar(x)) {
+			return x.X, true
+		}
+	}
+	return nil, false
+}
+
+// c04FieldCmpEdges: the edges on which `<base>.<fv> == <constant>` has the value
+// val (the comparison written with == or !=, in either operand order).
+func c04FieldCmpEdges(f *ssa.Function, fv *types.Var, baseOK func(base ssa.Value) bool, constant string, val bool) []eng.Edge {
+	var out []eng.Edge
+	if fv == nil {
+		return nil
+	}
+	for _, in := range eng.Instrs(f, func(in ssa.Instruction) bool { _, ok := in.(*ssa.BinOp); return ok }) {
+		b := in.(*ssa.BinOp)
+		if b.Op != token.EQL && b.Op != token.NEQ {
+			continue
+		}
+		for _, pair := range [][2]ssa.Value{{b.X, b.Y}, {b.Y, b.X}} {
+			base, ok := nfFieldRead(pair[0], fv)
+			cst, isC := pair[1].(*ssa.Const)
+			if !ok || !isC || eng.Expr(cst) != constant || (baseOK != nil && !baseOK(base)) {
+				continue
+			}
+			out = append(out, eng.BoolEdges(b, (b.Op == token.EQL) == val)...)
+		}
+	}
+	return out
+}
+
+// nfErrIdx: the index of the trailing error result of fn, or -1.
+func nfErrIdx(fn *ssa.Function) int {
+	res := fn.Signature.Results()
+	if res.Len() == 0 || res.At(res.Len()-1).Type().String() != "error" {
+		return -1
+	}
+	return res.Len() - 1
+}
+
+// nfReturnsErrOf: the return hands on, as result errIdx, nothing but the error
+// result of one of the calls: it reports success exactly when that call did.
+func nfReturnsErrOf(in ssa.Instruction, errIdx int, calls []ssa.Instruction) bool {
+	r, ok := in.(*ssa.Return)
+	if !ok || errIdx < 0 || errIdx >= len(r.Results) {
+		return false
+	}
+	evs := map[ssa.Value]bool{}
+	for _, cl := range calls {
+		if ci, ok := cl.(ssa.CallInstruction); ok {
+			if ev := eng.ErrValue(ci); ev != nil {
+				evs[ev] = true
+			}
+		}
+	}
+	vals, _, escaped := eng.ReturnVals(r, errIdx)
+	if escaped || len(vals) == 0 {
+		return false
+	}
+	for _, v := range vals {
+		if !evs[v] {
+			return false
+		}
+	}
+	return true
+}
+
+// nfForwards: g returns a nil error only across the success of one of the
+// inner sites (whose own error result is the verdict of the effect).
+func nfForwards(g *ssa.Function, inner []nfSite) bool {
+	idx := nfErrIdx(g)
+	if idx < 0 {
+		return false
+	}
+	var ok []eng.Edge
+	var ats []ssa.Instruction
+	for _, s := range inner {
+		ci, isCall := s.At.(*ssa.Call)
+		if !s.Fwd || !isCall {
+			continue
+		}
+		ok = append(ok, eng.CallOKEdges(ci)...)
+		ats = append(ats, ci)
+	}
+	if len(ats) == 0 {
+		return false
+	}
+	var sinks []ssa.Instruction
+	for _, r := range eng.SuccessReturns(g, idx) {
+		if !nfReturnsErrOf(r, idx, ats) {
+			sinks = append(sinks, r)
+		}
+	}
+	if len(sinks) == 0 {
+		return true
+	}
+	return eng.Reach(eng.Query{Fn: g, Blocked: ok, Target: eng.IsTarget(sinks)}) == nil
+}
+
+// nfSites: the sites of f at which a call whose resolved target matches pat has
+// certainly happened (directly, through a bound method value, or inside a
+// closure / helper of this package that performs it on every path).
+func nfSites(f *ssa.Function, pat string) []nfSite { return nfMust(f, nil, nfNamed(pat), 2) }
+
+// nfPlain drops deferred and spawned sites.
+func nfPlain(ss []nfSite) []nfSite {
+	var out []nfSite
+	for _, s := range ss {
+		if _, ok := s.At.(*ssa.Call); ok {
+			out = append(out, s)
+		}
+	}
+	return out
+}
+
+// nfOKOf: the guard "one of the sites happened and succeeded" (the counterpart
+// of eng.GCallOK for resolved sites).
+func nfOKOf(desc string, ss []nfSite) eng.Guard {
+	g := eng.Guard{Desc: desc}
+	for _, s := range nfPlain(ss) {
+		if !s.Fwd {
+			continue
+		}
+		g.Edges = append(g.Edges, eng.CallOKEdges(s.At.(ssa.CallInstruction))...)
+		g.Pass = append(g.Pass, s.At)
+	}
+	return g
+}
+
+// nfGCallOK is eng.GCallOK over resolved sites (same description, same key).
+func nfGCallOK(f *ssa.Function, pat string) eng.Guard {
+	return nfOKOf("success edge of "+pat, nfSites(f, pat))
+}
+
+// nfFailEdgesOf / nfOKEdgesOf: the failure / success edges of a resolved site.
+func nfFailEdgesOf(s nfSite) []eng.Edge {
+	if ci, ok := s.At.(*ssa.Call); ok && s.Fwd {
+		return eng.CallFailEdges(ci)
+	}
+	return nil
+}
+
+func nfOKEdgesOf(ss []nfSite) []eng.Edge {
+	var out []eng.Edge
+	for _, s := range nfPlain(ss) {
+		if s.Fwd {
+			out = append(out, eng.CallOKEdges(s.At.(ssa.CallInstruction))...)
+		}
+	}
+	return out
+}
+
+// nfCutOK is c.Cut for a guard made of call successes (g.Pass lists the calls):
+// a sink that returns, as its error result errIdx, the very error of such a call
+// reports success exactly when the call succeeded and needs no test in between
+// (`return callee(...)`). `alt` are alternative guards (joined with OR).
+func nfCutOK(c *eng.Ctx, f *ssa.Function, sinkDesc string, sinks []ssa.Instruction, errIdx int, g eng.Guard, alt ...eng.Guard) bool {
+	full := g
+	if len(alt) > 0 {
+		full = eng.Or(append([]eng.Guard{g}, alt...)...)
+	}
+	if len(sinks) == 0 {
+		return c.Cut(f, sinkDesc, sinks, full, nil)
+	}
+	var rest []ssa.Instruction
+	for _, s := range sinks {
+		if !nfReturnsErrOf(s, errIdx, g.Pass) {
+			rest = append(rest, s)
+		}
+	}
+	if len(rest) == 0 {
+		c.OK(f, "sink{"+sinkDesc+"} guard{"+full.Desc+"}", sinks[0].Pos(), "every sink returns the error result of the guarded call itself: it reports success exactly when the call succeeded")
+		return true
+	}
+	return c.Cut(f, sinkDesc, rest, full, nil)
+}
+
+// nfAfterFailure: the first of the nil-capable returns `succ` (error result
+// errIdx) that can be reached although the site failed, not crossing `blocked`.
+// The failure is what the failure edges of the tests of its error say; an error
+// that is never tested fails "silently" right after the call; a return that
+// hands on the site's own error is not a success after a failure.
+func nfAfterFailure(f *ssa.Function, s nfSite, succ []ssa.Instruction, errIdx int, blocked []eng.Edge) (hit *eng.Hit, tested bool) {
+	var rest []ssa.Instruction
+	for _, r := range succ {
+		if !nfReturnsErrOf(r, errIdx, []ssa.Instruction{s.At}) {
+			rest = append(rest, r)
+		}
+	}
+	fe := nfFailEdgesOf(s)
+	if len(fe) > 0 {
+		return eng.Reach(eng.Query{Fn: f, StartEdges: fe, Blocked: blocked, Target: eng.IsTarget(rest)}), true
+	}
+	return eng.Reach(eng.Query{Fn: f, StartAfter: s.At, Blocked: blocked, Target: eng.IsTarget(rest)}), false
+}
+
+// nfProv is c.Prov with the origins continued through captured variables and
+// the parameters of followed helpers (call chain fr).
+func nfProv(c *eng.Ctx, fn *ssa.Function, site string, at ssa.Instruction, v ssa.Value, fr *nfFrame, allowed ...string) bool {
+	if v == nil {
+		return c.Prov(fn, site, at, v, allowed...)
+	}
+	if ok, _, _ := eng.OriginsMatch(v, allowed...); ok {
+		return c.Prov(fn, site, at, v, allowed...)
+	}
+	var res []*regexp.Regexp
+	for _, a := range allowed {
+		res = append(res, regexp.MustCompile(a))
+	}
+	var all []string
+	bad := ""
+	for _, o := range nfOrigins(v, fr) {
+		d := o.Kind + ":" + o.Desc
+		all = append(all, d)
+		m := false
+		for _, re := range res {
+			if re.MatchString(d) {
+				m = true
+			}
+		}
+		if !m && bad == "" {
+			bad = d
+		}
+	}
+	if bad != "" || len(all) == 0 {
+		return c.Prov(fn, site, at, v, allowed...) // reports the violation in the usual words
+	}
+	c.OK(fn, "prov{"+site+"}", at.Pos(), "origins "+strings.Join(all, " ")+" ⊆ allowed "+strings.Join(allowed, " "))
+	return true
+}
+
+// nfResolveParam follows a parameter of a followed helper / closure to the
+// argument it was called with.
+func nfResolveParam(v ssa.Value, fr *nfFrame) (ssa.Value, *nfFrame) {
+	for depth := 0; depth < 5; depth++ {
+		p, ok := v.(*ssa.Parameter)
+		if !ok || fr == nil {
+			return v, fr
+		}
+		arg := nfArgFor(fr.call, p)
+		if arg == nil {
+			return v, fr
+		}
+		v, fr = arg, fr.up
+	}
+	return v, fr
+}
+
+// nfChainInstr: the instruction of function k through which effect e happens
+// (the effect call itself when it stands in k, else the call on its chain).
+func nfChainInstr(e nfEff, k *ssa.Function) ssa.Instruction {
+	if e.Fn == k {
+		return e.Call.In
+	}
+	for fr := e.Fr; fr != nil; fr = fr.up {
+		if fr.call != nil && fr.call.Parent() == k {
+			return fr.call
+		}
+	}
+	return nil
+}
+
+// nfFieldStores: the stores to field fv in f and in the closures / helpers of
+// this package f calls (one level), with the function they stand in.
+func nfFieldStores(f *ssa.Function, fv *types.Var) []nfStore {
+	var out []nfStore
+	scan := func(g *ssa.Function, fr *nfFrame) {
+		for _, b := range g.Blocks {
+			for _, in := range b.Instrs {
+				st, ok := in.(*ssa.Store)
+				if !ok {
+					continue
+				}
+				if fa, ok := st.Addr.(*ssa.FieldAddr); ok {
+					if gv := eng.FieldVar(fa); gv != nil && (gv == fv || gv.Origin() == fv) {
+						out = append(out, nfStore{Fn: g, St: st, Fr: fr, Base: fa.X})
+					}
+				}
+			}
+		}
+	}
+	if fv == nil {
+		return nil
+	}
+	scan(f, nil)
+	seen := map[*ssa.Function]bool{f: true}
+	for _, ci := range nfAllCalls(f) {
+		if _, plain := ci.(*ssa.Call); !plain {
+			continue
+		}
+		if g := nfBody(ci, f); g != nil && !seen[g] {
+			seen[g] = true
+			scan(g, &nfFrame{call: ci})
+		}
+	}
+	return out
+}
+
+type nfStore struct {
+	Fn   *ssa.Function
+	St   *ssa.Store
+	Fr   *nfFrame
+	Base ssa.Value // address of the struct whose field is written
+}
+
+// nfViewOps: the sites of f at which storage operation `op` (Put / Delete /
+// List / Get) on a view built by the constructor matching ctorPat has certainly
+// happened; the view is followed through aliases, captured variables and the
+// parameters of a closure / helper that performs the operation.
+func nfViewOps(f *ssa.Function, fr *nfFrame, op, ctorPat string) []nfSite {
+	name := regexp.MustCompile(`^<barrier\.View>\.(` + op + `)$`)
+	ctor := regexp.MustCompile(ctorPat)
+	return nfPlain(nfMust(f, fr, func(nc nfCall, fr *nfFrame) bool {
+		if nc.Recv == nil || !name.MatchString(nc.Name) {
+			return false
+		}
+		ok, _ := nfAll(nc.Recv, fr, func(o eng.Origin) bool { return o.Kind == "call" && ctor.MatchString(o.Desc) })
+		return ok
+	}, 2))
+}
+
+// nfViewArg: the namespace argument of the view constructor (matching ctorPat)
+// the receiver of storage effect e was built by, with the call chain of the
+// function that argument lives in; nil when the receiver is anything else.
+func nfViewArg(e nfEff, ctorPat string) (ssa.Value, *nfFrame) {
+	if e.Call.Recv == nil {
+		return nil, nil
+	}
+	re := regexp.MustCompile(ctorPat)
+	for _, o := range nfOriginsF(e.Call.Recv, e.Fr) {
+		if o.Kind != "call" || !re.MatchString(o.Desc) {
+			return nil, nil
+		}
+		if vc, ok := o.Val.(*ssa.Call); ok && len(vc.Call.Args) == 2 {
+			return vc.Call.Args[1], o.Fr
+		}
+	}
+	return nil, nil
 }
